@@ -35,7 +35,7 @@ if os.path.exists(_kf):
 COMMON_ASSUMPTIONS = ["A1", "A6", "A7"]
 
 _TB = ["z3 SMT solver (cvc5 for string queries z3 leaves open)", "pyvc VC generator (/verif/pyvc)", "CPython ast module"]
-from .bounded import query_enum_check  # noqa: E402
+from .bounded import query_enum_check, roundtrip_check  # noqa: E402
 
 _TBB = ["CPython executing the real functions", "in-memory lmdb/msgpack stand-ins (/verif/stubs)", "sqlite3", "the NIP-01 oracle in /verif/bounded/query_enum.py"]
 PROPERTIES = {
@@ -46,7 +46,7 @@ PROPERTIES = {
     "C17": {"level": "proof", "trusted_base": _TB, "assumptions": ["A3", "GCSQL", "SQL"]},
     "C20": {"level": "proof", "trusted_base": _TB, "assumptions": ["TCP", "A4", "EV"]},
     "C01": {"level": "proof", "trusted_base": _TB, "assumptions": ["REPL", "REPR", "INDUCT-ATOMS", "SQL", "ENUM", "LMDBSTUB"], "extra_checks": [query_enum_check("C01")]},
-    "C04": {"level": "proof", "trusted_base": _TB, "assumptions": ["EV", "ENC", "JSON", "SQL"]},
+    "C04": {"level": "proof", "trusted_base": _TB, "assumptions": ["EV", "ENC", "JSON", "SQL", "RTRIP"], "extra_checks": [roundtrip_check("C04")]},
     "C03": {"level": "proof", "trusted_base": _TB, "assumptions": ["EV", "SQL", "JSON"]},
     "C05": {"level": "proof", "trusted_base": _TB, "assumptions": ["EV", "A4", "ENUM"], "extra_checks": [query_enum_check("C05")]},
     "C06": {"level": "proof", "trusted_base": _TB, "assumptions": ["EV", "SQL", "WS", "JSON", "A4"]},
@@ -124,6 +124,16 @@ def try_replay(prop, unit, name, insts):
 def replay(prop, path):
     rp = json.load(open(os.path.join(ROOT, path) if not os.path.isabs(path) else path))
     print(json.dumps({k: rp[k] for k in ("property", "obligation", "unit", "function")}, indent=1))
+    if rp["unit"] == "bounded:store-and-serve-roundtrip":
+        env = dict(os.environ)
+        env["PYTHONPATH"] = ROOT
+        p = subprocess.run([sys.executable, os.path.join(ROOT, "bounded", "roundtrip_enum.py")], env=env, capture_output=True, text=True)
+        print(p.stdout[-2000:])
+        kind = rp["instances"][0].get("kind", "")
+        if ("FAIL " + kind) in p.stdout:
+            print("VIOLATION property=%s replay=%s" % (prop, path))
+            return 1
+        return 0
     if rp["unit"].startswith("bounded:"):
         case = rp["instances"][0]["example"]
         tmp = os.path.join(ROOT, "replays", "_case.json")
